@@ -18,8 +18,8 @@ class UnitM(Unit):
                                 [('dep_reqwest.rs', ['reqwest-error']),
                                  ('dep_yaserde.rs', ['io-traits', 'io-write-trait-opaque', 'io-traits-end', 'xml', 'yaserde-begin', 'yaserde-traits', 'yaserde-end'])])
         hc = HelpersContent(repo)
-        hc.emit_error(out, False, record=False)
-        hc.emit_restrictions(out, False, record=False)
+        hc.emit_error(out, False, record=False, imported='R')
+        hc.emit_restrictions(out, False, record=False, imported='R')
         hc.emit_multi_ref(out, probe)
         out.spec(TAIL)
         return out
